@@ -85,7 +85,7 @@ func (p *probeActor) last() []string {
 func c20Run(c *caseCtx) (res caseResult) {
 	r := c.rng
 	wd := watchdog(c.tier)
-	base := 30000 + (c.n%1000)*24
+	base := 10000 + (c.n%900)*24 // (below the ephemeral port range: an outgoing connection must not take a port we listen on)
 	addr := func(i int) string { return fmt.Sprintf("127.0.0.1:%d", base+i) }
 	// the node under test
 	cfg := cluster.NewConfig().WithListenAddr(addr(0)).WithID("node").WithRequestTimeout(60 * time.Second)
@@ -588,7 +588,7 @@ func c20Discovery(c *caseCtx) (res caseResult) {
 	r := c.rng
 	wd := watchdog(c.tier)
 	k := 2 + r.Intn(3)
-	base := 34000 + (c.n%500)*8
+	base := 12000 + (c.n%500)*8 // (below the ephemeral port range)
 	type node struct {
 		id  string
 		cl  *cluster.Cluster
